@@ -455,7 +455,8 @@ def alloc(F, rep):
     if len(env_new) != 1 or ntx is None:
         rep.anchor("C15.alloc", "ElementsEnv::new / c_env::new_tx_env")
         return
-    f = env_new[0]
+    # the three allocations may sit in a private helper of the constructor: splice it back in
+    f = F.inlined(env_new[0], ("new_tx_env", "new_tx", "new_tap_env"))
     T = Terms(f)
     calls = [cs for cs in f.calls() if cs.name == "new_tx_env"]
     if len(calls) != 1:
